@@ -7,7 +7,7 @@
    partial, derivatives vs. Richardson/Ridders differences of the binding's own values)
 4. correspondence: every observed call must be explained by the generated skeleton (lean driver)
 """
-import os, sys, json, re, subprocess, hashlib
+import os, sys, json, re, subprocess, hashlib, shutil, time
 from common import *
 
 GEN = os.path.join(LEAN, 'MpVerif', 'Gen', 'GslSkel.lean')
@@ -50,7 +50,72 @@ def build_harness(ck):
     shim = os.path.join(VERIF, 'harness', 'shim')
     objs = ck.objects([os.path.join(REPO, 'src', 'gsl', 'amplgsl.cc'), os.path.join(VERIF, 'harness', 'h_gsl.cc')],
                       flags=flags, extra_inc=[shim], tag='gsl')
+    # src/gsl/default.c replaces GSL's gsl_rng_env_setup (keeps the seed AMPL handed over): part of the library as shipped
+    objs += ck.objects([os.path.join(REPO, 'src', 'gsl', 'default.c')], flags=['-O1', '-g'], extra_inc=[shim], cxx='gcc', std='gnu11', tag='gslc')
     return ck.link('h_gsl', objs, flags=['-fsanitize=undefined,float-cast-overflow'], libs=['-lgsl', '-lgslcblas', '-lm'])
+
+
+def build_gsl_info(ck):
+    """src/gsl/gsl-info.cc (the program that writes gsl.ampl) linked with the same amplgsl.cc"""
+    shim = os.path.join(VERIF, 'harness', 'shim')
+    objs = ck.objects([os.path.join(REPO, 'src', 'gsl', 'amplgsl.cc'), os.path.join(REPO, 'src', 'gsl', 'gsl-info.cc')],
+                      flags=['-O1', '-g'], extra_inc=[shim], tag='gslinfo')
+    objs += ck.objects([os.path.join(REPO, 'src', 'gsl', 'default.c')], flags=['-O1', '-g'], extra_inc=[shim], cxx='gcc', std='gnu11', tag='gslc')
+    return ck.link('gsl_info', objs, libs=['-lgsl', '-lgslcblas', '-lm'])
+
+
+RNGENV = [('default', {}), ('seed-env', {'GSL_RNG_SEED': '99'}), ('type-env', {'GSL_RNG_TYPE': 'taus'}),
+          ('type-and-seed-env', {'GSL_RNG_TYPE': 'taus', 'GSL_RNG_SEED': '99'}), ('invalid-type', {'GSL_RNG_TYPE': 'nosuch'})]
+
+
+def rngenv_oracle(ck, exe):
+    """src/gsl/default.c: GSL_RNG_TYPE selects the generator; GSL_RNG_SEED matters exactly when AMPL's seed is 0"""
+    res = {}
+    for tag, env in RNGENV:
+        e = {k: v for k, v in os.environ.items() if not k.startswith('GSL_RNG_')}
+        e.update(env)
+        p = subprocess.run([exe, 'rngenv'], capture_output=True, text=True, env=e, timeout=60)
+        rows = dict(re.findall(r'seed (\d+): (.*)', p.stdout))
+        res[tag] = (p.returncode, rows)
+    d = res['default'][1]
+    def bad(sig, what):
+        ck.add_violation(sig, what, {'observed': {k: v for k, v in res.items()}, 'cmd': 'GSL_RNG_TYPE=.. GSL_RNG_SEED=.. %s rngenv' % exe})
+    if res['default'][0] != 0 or len(d) != 2:
+        bad('rng-env:default-run-failed', 'h_gsl rngenv failed without any GSL_RNG_* variable: rc=%s' % res['default'][0])
+        return res
+    if d['0'] == d['5']:
+        bad('rng-seed-ignored:rngenv', 'seeds 0 and 5 give the same variates')
+    s = res['seed-env'][1]
+    if s.get('5') != d['5']:
+        bad('rng-env:GSL_RNG_SEED-overrides-ampl-seed', 'GSL_RNG_SEED changed the stream although AMPL supplied the non-zero seed 5')
+    if s.get('0') == d['0']:
+        bad('rng-env:GSL_RNG_SEED-ignored', 'GSL_RNG_SEED=99 has no effect when AMPL supplies seed 0')
+    t = res['type-env'][1]
+    if t.get('5') == d['5']:
+        bad('rng-env:GSL_RNG_TYPE-ignored', 'GSL_RNG_TYPE=taus gives the same stream as the default generator')
+    if res['invalid-type'][0] != 0:
+        bad('rng-env:invalid-GSL_RNG_TYPE-kills-process', 'with GSL_RNG_TYPE=nosuch funcadd_ASL does not return: rc=%s (gsl_rng_alloc(NULL) in rng_init)' % res['invalid-type'][0])
+    ck.cov['rng_env_variants_observed'] = {k: v[0] for k, v in res.items()}
+    return res
+
+
+def gsl_info_oracle(ck, meta):
+    """gsl-info must declare exactly the functions funcadd_ASL registers, with the right attribute"""
+    exe = build_gsl_info(ck)
+    d = os.path.join(BUILD, 'c16', 'gslinfo')
+    os.makedirs(d, exist_ok=True)
+    p = subprocess.run([exe], cwd=d, capture_output=True, text=True, timeout=60)
+    got = []
+    f = os.path.join(d, 'gsl.ampl')
+    if p.returncode == 0 and os.path.exists(f):
+        got = re.findall(r'^function (\w+)( random| symbolic)?;$', open(f).read(), re.M)
+    attr = {'FUNCADD_REAL_VALUED': '', 'FUNCADD_STRING_VALUED': ' symbolic', 'FUNCADD_RANDOM_VALUED': ' random'}
+    want = [(a, attr.get(t, '?')) for a, c, t, n in meta.get('registered', [])]
+    ck.cov['gsl_info_declarations'] = len(got)
+    if want and got != want:
+        diff = [x for x in want if x not in got][:3] + [x for x in got if x not in want][:3]
+        ck.add_violation('gsl-info-declarations-differ', 'gsl.ampl written by gsl-info does not declare the registered functions (rc=%s): %s' % (p.returncode, diff),
+                         {'first_differences': diff, 'stdout': p.stdout[-300:], 'cmd': exe}, found_input=True)
 
 
 def run_harness(ck, exe, outdir, extra=()):
@@ -63,8 +128,183 @@ def run_harness(ck, exe, outdir, extra=()):
         return -999, (e.stdout.decode() if isinstance(e.stdout, bytes) else (e.stdout or ''))
 
 
+
+# ---------------------------------------------------------------------------------------------------- coverage mode
+ANCHOR_BUILT = ['src/gsl/amplgsl.cc', 'src/gsl/default.c', 'src/gsl/gsl-info.cc']
+ANCHOR_NOT_BUILT = {'test/gsl-test.cc': 'needs ASL (solvers/asl.h) and gtest; not built in the pinned configuration, nothing of it can be executed here',
+                    'test/function.h': 'helper of gsl-test.cc, needs ASL',
+                    'test/function.cc': 'helper of gsl-test.cc, needs ASL'}
+MECH_HELPERS = ['check_result', 'check_args', 'check_deriv_arg', 'check_bessel_args', 'eval_error', 'deriv_error', 'format_eval_error',
+                'format_error', 'error', 'check_const_arg', 'check_int_arg', 'check_uint_arg', 'check_zero_func_args', 'check_coupling_args',
+                'funcadd_ASL', 'rng_init', 'free_rng']
+
+
+def classify_gap(fn, src, what, detail):
+    """(class, reason) for one uncovered line / untaken branch"""
+    if '(throw)' in detail:
+        return 'a', 'exception edge of a call compiled at -O0 (C functions never throw)'
+    if 'WRAP_DISCRETE' in src and 'DEFAULT_ARGS' not in src and what in ('branch 9', 'branch 11'):
+        return 'a', 'WRAP_DISCRETE instantiated with a non-null name table whose entries from index 1 on are all non-null (hypergeometric) / has_names constant true: the other outcome cannot occur in this instantiation'
+    if 'DEFAULT_ARGS' in src:
+        return 'a', 'WRAP_DISCRETE instantiated with DEFAULT_ARGS = 0: the name loop is dead by construction in this instantiation'
+    if 'x < -1 / M_E' in src or '*al->derivs = GSL_NAN;' in src:
+        return 'a', 'dead: for x < -1/e the preceding CHECK_CALL already returned with an evaluation error'
+    if 'ASLdate' in src:
+        return 'b', 'needs a second AmplExports with an ASL date before 20120830 (no Addrandinit): then rng stays NULL; outside the supported ASL'
+    if fn in ('format_error', 'error', 'deriv_error') and ('format_error' in src or 'va_' in src):
+        return 'a', 'va_list plumbing edge, no decision'
+    if 'gsl_rng_default == 0' in src or 'not recognized' in src or 'Valid generator' in src or 'fputc' in src or "(++i) % 4" in src or 'unknown generator' in src or 'fprintf (stderr, " %18s"' in src:
+        return 'b', 'executed by the GSL_RNG_TYPE=nosuch run, but that process dies in gsl_rng_alloc(NULL) before gcov can flush its counters (finding C16-invalid-rng-type-env-crash)'
+    if fn == 'main':
+        return 'a', 'I/O failure paths of the gsl-info tool (unwritable directory); nothing to do with function evaluation'
+    if fn in ('amplgsl_ran_landau', 'amplgsl_ran_ugaussian', 'amplgsl_ran_ugaussian_ratio_method') and 'WRAP(' in src:
+        return 'a', 'zero-argument bindings: check_args cannot fail (no argument can be NaN)'
+    if fn in ('amplgsl_sf_bessel_zero_J0', 'amplgsl_sf_bessel_zero_J1', 'amplgsl_sf_psi_1piy', 'amplgsl_sf_zetam1') and ('CHECK_CALL' in src or 'WRAP_CHECKED' in src):
+        return 'b', 'defensive status test: the GSL routine returned GSL_SUCCESS for every argument probed (all unsigned s incl. 4e9; y from 0 to 1e300), no input known that makes it fail'
+    if fn is None and ('for (t = t0' in src or 'int i = 0;' in src):
+        return 'b', 'executed by the GSL_RNG_TYPE=nosuch run, but that process dies in gsl_rng_alloc(NULL) before gcov can flush its counters (finding C16-invalid-rng-type-env-crash)'
+    if 'status != GSL_SUCCESS' in src or 'CHECK_CALL' in src or 'WRAP_CHECKED' in src:
+        return 'c', 'GSL status branch of this binding not driven to both outcomes by the quick stream (reachable with other arguments)'
+    return 'c', 'reachable with other arguments'
+
+
+def parse_gcov(path):
+    out = {'functions': {}, 'gaps': []}
+    cur, lineno, src = None, 0, ''
+    for l in open(path, errors='replace'):
+        l = l.rstrip('\n')
+        m = re.match(r'function (\S+) called (\d+) returned (\d+)% blocks executed (\d+)%', l)
+        if m:
+            nm = m.group(1)
+            mm = re.match(r'_ZL?\d+([A-Za-z_0-9]+?)(P7arglist.*|Pv.*|PvS_m|v)?$', nm)
+            cur = re.sub(r'(P7arglist.*|Pvm|Pv|v)$', '', re.sub(r'^_ZL?\d+', '', nm)) if nm.startswith('_Z') else nm
+            out['functions'][cur] = {'called': int(m.group(2)), 'blocks': int(m.group(4))}
+            continue
+        m = re.match(r'\s*([\d#=\-]+)\*?:\s*(\d+):(.*)', l)
+        if m:
+            lineno, src = int(m.group(2)), m.group(3).strip()
+            if m.group(1) in ('#####', '====='):
+                out['gaps'].append((cur, lineno, src, 'line', 'not executed'))
+            continue
+        m = re.match(r'branch\s+(\d+) (never executed|taken (\d+))(.*)', l)
+        if m and (m.group(2) == 'never executed' or m.group(3) == '0'):
+            out['gaps'].append((cur, lineno, src, 'branch %s' % m.group(1), (m.group(2) + m.group(4)).strip()))
+    return out
+
+
+def coverage_mode(ck):
+    """VERIF_COVERAGE=1 ./check C16: gcov of the anchored files under the quick-tier input stream"""
+    cdir = os.path.join(BUILD, 'cov16')
+    shutil.rmtree(cdir, ignore_errors=True)
+    os.makedirs(os.path.join(cdir, 'out'))
+    shim = os.path.join(VERIF, 'harness', 'shim')
+    inc = ['-I', shim, '-I', os.path.join(VERIF, 'harness')]
+    def cc(cmd):
+        rc, out, err = sh(cmd, cwd=cdir, timeout=900)
+        if rc != 0:
+            raise RuntimeError('coverage build failed: %s\n%s' % (' '.join(cmd), err[-2000:]))
+    cc(['g++', '-std=c++17', '--coverage', '-O0', '-g'] + inc + ['-c', os.path.join(REPO, 'src/gsl/amplgsl.cc'), '-o', 'amplgsl.o'])
+    cc(['gcc', '-std=gnu11', '--coverage', '-O0', '-g'] + inc + ['-c', os.path.join(REPO, 'src/gsl/default.c'), '-o', 'default.o'])
+    cc(['g++', '-std=c++17', '--coverage', '-O0', '-g'] + inc + ['-c', os.path.join(REPO, 'src/gsl/gsl-info.cc'), '-o', 'gsl-info.o'])
+    cc(['g++', '-std=c++17', '-O1'] + inc + ['-c', os.path.join(VERIF, 'harness/h_gsl.cc'), '-o', 'h_gsl.o'])
+    cc(['g++', '--coverage', 'amplgsl.o', 'default.o', 'h_gsl.o', '-o', 'h_gsl_cov', '-lgsl', '-lgslcblas', '-lm'])
+    cc(['g++', '--coverage', 'amplgsl.o', 'default.o', 'gsl-info.o', '-o', 'gsl_info_cov', '-lgsl', '-lgslcblas', '-lm'])
+    t0 = time.time()
+    p = subprocess.run([os.path.join(cdir, 'h_gsl_cov'), 'quick', str(ck.seed), os.path.join(cdir, 'out')], capture_output=True, text=True, timeout=1800)
+    ck.log('coverage: quick stream through the instrumented build: rc=%s %.0fs' % (p.returncode, time.time() - t0))
+    for tag, env in RNGENV:
+        e = {k: v for k, v in os.environ.items() if not k.startswith('GSL_RNG_')}
+        e.update(env)
+        subprocess.run([os.path.join(cdir, 'h_gsl_cov'), 'rngenv'], capture_output=True, env=e, timeout=60)
+    subprocess.run([os.path.join(cdir, 'gsl_info_cov')], cwd=os.path.join(cdir, 'out'), capture_output=True, timeout=60)
+    summary, report = {}, {}
+    for f in ANCHOR_BUILT:
+        rc, out, err = sh(['gcov-12', '-b', '-c', '-o', '.', os.path.join(REPO, f)], cwd=cdir, timeout=600)
+        m = re.search("File '" + re.escape(os.path.join(REPO, f)) + r"'\nLines executed:([\d.]+)% of (\d+)\nBranches executed:([\d.]+)% of (\d+)\nTaken at least once:([\d.]+)% of (\d+)", out)
+        if not m:
+            raise RuntimeError('no gcov summary for %s: %s' % (f, out[-500:] + err[-500:]))
+        summary[f] = {'lines_pct': float(m.group(1)), 'lines': int(m.group(2)), 'branches_executed_pct': float(m.group(3)),
+                      'branches': int(m.group(4)), 'branches_taken_pct': float(m.group(5))}
+        report[f] = parse_gcov(os.path.join(cdir, os.path.basename(f) + '.gcov'))
+    tl = sum(v['lines'] for v in summary.values())
+    tb = sum(v['branches'] for v in summary.values())
+    line_cov = sum(v['lines'] * v['lines_pct'] for v in summary.values()) / tl
+    br_cov = sum(v['branches'] * v['branches_taken_pct'] for v in summary.values()) / tb
+    cdoc = os.path.join(VERIF, 'design_notes', 'coverage')
+    os.makedirs(cdoc, exist_ok=True)
+    prev = {}
+    jp = os.path.join(cdoc, 'C16.json')
+    if os.path.exists(jp):
+        prev = json.load(open(jp))
+    classes = {'a': 0, 'b': 0, 'c': 0}
+    md = ['# C16 — coverage of the anchored code under the quick-tier input stream', '',
+          'Produced by `VERIF_COVERAGE=1 ./check C16` (seed %d): `amplgsl.cc`, `default.c`, `gsl-info.cc` compiled with `--coverage -O0`, '
+          'harness quick stream + the five `rngenv` environment variants + one run of `gsl-info`; `gcov-12 -b -c`.' % ck.seed, '',
+          '| anchored file | lines | line cov % | branches | executed % | taken at least once % |', '|---|---|---|---|---|---|']
+    for f in ANCHOR_BUILT:
+        v = summary[f]
+        md.append('| `%s` | %d | %.2f | %d | %.2f | %.2f |' % (f, v['lines'], v['lines_pct'], v['branches'], v['branches_executed_pct'], v['branches_taken_pct']))
+    for f, why in ANCHOR_NOT_BUILT.items():
+        md.append('| `%s` | – | not built | – | – | – |  (b) %s' % (f, why))
+    md += ['', '**All built anchored files together: line coverage %.2f %%, branch coverage (taken at least once) %.2f %%.**' % (line_cov, br_cov), '']
+    base = prev.get('baseline') or {'anchor_line_cov': round(line_cov, 2), 'anchor_branch_cov': round(br_cov, 2), 'note': 'first measurement'}
+    md += ['Baseline before the round-3 generator work (same procedure, amplgsl.cc only linked with stock libgsl, default.c / gsl-info.cc not built): '
+           'line %.2f %%, branch %.2f %%.' % (base['anchor_line_cov'], base['anchor_branch_cov']), '']
+    for f in ANCHOR_BUILT:
+        rep = report[f]
+        never = [fn for fn, st in rep['functions'].items() if st['called'] == 0]
+        md += ['## `%s`' % f, '', 'functions never called: %s' % (', '.join('`%s`' % x for x in never) or 'none'), '']
+        byfn = {}
+        for fn, ln, src, what, detail in rep['gaps']:
+            cl, why = classify_gap(fn, src, what, detail)
+            classes[cl] += 1
+            byfn.setdefault((cl, why), {}).setdefault(fn, []).append((ln, what, src))
+        for (cl, why), fns in sorted(byfn.items()):
+            n_items = sum(len(v) for v in fns.values())
+            md.append('* **(%s)** %s — %d items in %d functions' % (cl, why, n_items, len(fns)))
+            mech = [fn for fn in fns if fn in MECH_HELPERS]
+            shown = 0
+            for fn in sorted(fns, key=lambda x: (x not in MECH_HELPERS, x)):
+                if cl == 'a' and fn not in MECH_HELPERS:
+                    continue
+                if shown >= 60:
+                    md.append('  * …')
+                    break
+                shown += 1
+                items = fns[fn]
+                md.append('  * `%s`: %s' % (fn, '; '.join('L%d %s `%s`' % (ln, what, src[:70]) for ln, what, src in items[:4]) + (' …(+%d)' % (len(items) - 4) if len(items) > 4 else '')))
+        md.append('')
+    # the hand-modelled helpers: every arm of the Lean models (Model.lean: checkArgs, checkConstArg, checkIntArg, checkUintArg,
+    # checkZeroFuncArgs, checkDerivArg, checkBesselArgs, checkCouplingArgs, checkResult, evalError/derivError/argError) mirrors one C branch
+    rep = report['src/gsl/amplgsl.cc']
+    md += ['## hand-modelled helpers = arms of the Lean model', '',
+           'Each `if` of these C functions is one `if`/`match` arm of its Lean model (`MpVerif/C16/Model.lean`); every call counted here is also a line of the '
+           'correspondence stream that the Lean driver must explain, so C branch coverage of the helper is arm coverage of the model.', '',
+           '| helper | calls | blocks executed % | decision branches never taken (exception edges excluded) |', '|---|---|---|---|']
+    for h in MECH_HELPERS:
+        st = rep['functions'].get(h)
+        if not st:
+            continue
+        real = [(ln, what, src) for fn, ln, src, what, detail in rep['gaps'] if fn == h and '(throw)' not in detail and classify_gap(fn, src, what, detail)[0] != 'a']
+        md.append('| `%s` | %d | %d | %s |' % (h, st['called'], st['blocks'], '; '.join('L%d %s' % (ln, what) for ln, what, src in real) or 'none'))
+    md.append('')
+    md += ['Classes: (a) irrelevant to the property, (b) unreachable through this harness design, (c) reachable — generator gap still open. '
+           'Totals: a=%d, b=%d, c=%d.' % (classes['a'], classes['b'], classes['c']), '']
+    manual = os.path.join(cdoc, 'C16-manual.md')
+    if os.path.exists(manual):
+        md += [open(manual).read()]
+    open(os.path.join(cdoc, 'C16.md'), 'w').write('\n'.join(md) + '\n')
+    js = {'anchor_line_cov': round(line_cov, 2), 'anchor_branch_cov': round(br_cov, 2), 'per_file': summary, 'gap_items': classes,
+          'baseline': base, 'seed': ck.seed, 'procedure': 'VERIF_COVERAGE=1 ./check C16 (gcov-12 -b -c, quick-tier stream)'}
+    json.dump(js, open(jp, 'w'), indent=1)
+    ck.log('coverage: line %.2f%% branch %.2f%% (gaps a=%d b=%d c=%d) -> design_notes/coverage/C16.md' % (line_cov, br_cov, classes['a'], classes['b'], classes['c']))
+    ck.cov.update({'obligations': 0, 'discharged': 0, 'checker_cmd': 'coverage mode: no proofs run', 'anchor_line_cov': js['anchor_line_cov'], 'anchor_branch_cov': js['anchor_branch_cov']})
+
+
 def run(ck):
     ck.level = 'proof'
+    if os.environ.get('VERIF_COVERAGE') == '1':
+        return coverage_mode(ck)
     work = os.path.join(BUILD, 'tr')
     rc, out, err = sh([sys.executable, os.path.join(VERIF, 'translators', 'tr_gsl.py'), REPO, GEN, work], timeout=900)
     ck.log((out.strip() or err.strip())[-600:])
@@ -138,6 +378,11 @@ def run(ck):
             k = l.split(' ')
             hist[k[1]] = int(k[2])
     ck.log('harness: %d registrations, %s calls, %d finding classes, rc=%s' % (len(regs), stats.get('calls'), len(findings), rc_h))
+    try:
+        rngenv_oracle(ck, exe)
+        gsl_info_oracle(ck, meta)
+    except Exception as e:
+        ck.add_violation('rng-env-or-gsl-info-oracle-crashed', repr(e), {'exception': repr(e)}, found_input=False)
 
     # registration list: what the real funcadd_ASL registered == what the translator read
     tyval = {'FUNCADD_REAL_VALUED': 0, 'FUNCADD_STRING_VALUED': 2, 'FUNCADD_RANDOM_VALUED': 4}
@@ -268,6 +513,13 @@ def run(ck):
     ck.cov['numeric_second_derivatives'] = stats.get('num2')
     ck.cov['generator_histogram'] = hist
     ck.cov['ubsan_report_classes'] = sorted(ub)
+    try:
+        cj = json.load(open(os.path.join(VERIF, 'design_notes', 'coverage', 'C16.json')))
+        ck.cov['anchor_line_cov'] = cj['anchor_line_cov']
+        ck.cov['anchor_branch_cov'] = cj['anchor_branch_cov']
+        ck.cov['anchor_cov_note'] = 'as measured by the last VERIF_COVERAGE=1 run (design_notes/coverage/C16.md); not recomputed here'
+    except Exception:
+        pass
     ck.cov['exhaustive'] = False
     ck.cov['translator'] = {'registrations': len(meta.get('registered', [])), 'skeletons': meta.get('functions_translated'), 'problems': problems}
     ck.level = 'proof'
